@@ -253,6 +253,9 @@ PROPS["C14"] = dict(
         dict(name="jitter_total", crate="backoff", harness="jitter_total", tags=["C14"],
              claim="ExponentialRandomBackoff::randomize: the random range is non-empty and finite and the converted value is within Duration's range for every base delay and factor in [0,1] (no panic)",
              assumes=["Duration::as_secs_f64 returns a finite value in [0, 2^64)", "rand::random_range(a..=b) returns a value in [a,b]", "Duration::from_secs_f64 panics only on negative, non-finite or >= 2^64 input"]),
+        dict(name="backoff_zero_initial_stays_zero", crate="backoff", harness="backoff_zero_initial_stays_zero", tags=["C14"],
+             claim="a zero initial interval yields a zero delay for every attempt, multiplier and cap (initial x multiplier^attempt == 0 even after the power overflowed to +inf)",
+             assumes=["f64::powi contract as above"]),
         dict(name="backoff_cover", crate="backoff", harness="backoff_cover", tags=["C14"], claim="vacuity guard: cap reached / below cap / attempt beyond i32::MAX are all reachable under the harness assumptions"),
     ],
     title="Backoff delays are total, monotone and capped",
@@ -278,20 +281,37 @@ for _p, _h in (("C04", [dict(name="ratio_in_unit_interval", crate="leaves", harn
 PROPS["C20"] = dict(
     units=["bulkhead", "limiter", "cbcall", "retry", "timelimiter", "cache", "fallback", "reconnect", "adaptive", "coalesce", "chaos"],
     title="Layers are transparent, honour Tower readiness; listeners only observe",
-    level_text="Deductive proof (Verus), per layer, on the real call and poll_ready bodies of 11 of the 13 middleware: (a) transparency — on the non-triggering path exactly one inner call carrying the unchanged request, the "
+    level_text="Deductive proof (Verus), per layer, on the real call and poll_ready bodies of 12 of the 13 middleware: (a) transparency — on the non-triggering path exactly one inner call carrying the unchanged request, the "
                "result is the inner outcome wrapped only in the layer's pass-through variant, poll_ready returns the inner Poll mapped by that variant; (b) readiness — the inner-service contract has the PRECONDITION 'this "
                "instance has been observed ready since its previous call' at every call site, and a clone is not ready; poll_ready's Ready(Ok) establishes it. Stacks compose because every layer's proved contract has the shape of "
                "the assumed inner contract (meta-argument).",
-    level_note="Known findings: retry attempts >= 2 and reconnect retries call an instance without fresh readiness. Excluded by name: hedge and executor (tokio::select!/spawn bodies outside the dialect), time limiter's "
+    level_note="Known findings: retry attempts >= 2 and reconnect retries call an instance without fresh readiness. Excluded by name: executor (spawn on a user executor, outside the dialect), time limiter's "
                "non-cancelling path (R15), and clause (c) listeners: neither verifier models unwinding/catch_unwind; the only machine-checked fact is R2's side condition that dropped emit statements are effect-free.",
     technique="contract-based deductive verification (Verus): the Tower contract as pre/postconditions of an inner-service shim, checked at every call site of 11 extracted call bodies",
     design_ref="§6 C20",
     assumptions=["Tower contract of the inner service (assumed shim)", "a clone of a service is not ready (strict services such as Buffer)", "listeners are observers (R2)"],
     trusted=COMMON_TRUST,
-    excluded=["(c) listeners: panicking listeners / every listener receives every event (not decided)", "hedge, executor (not under contract)", "time limiter non-cancelling path", "stacks: composition is a meta-argument over the per-layer contracts"],
+    excluded=["(c) listeners: panicking listeners / every listener receives every event (not decided)", "executor (not under contract)", "time limiter non-cancelling path", "stacks: composition is a meta-argument over the per-layer contracts"],
 )
 
+PROPS["C12"] = dict(
+    units=["hedge"],
+    title="Hedge starts a bounded number of attempts and fails only when all have failed",
+    level_text="Deductive proof (Verus) on the whole real body of execute_with_hedging (a tokio::select! loop over spawned tasks) through rule R17: every `tokio::spawn(async move { B })` runs B in line and `select!` becomes a "
+               "nondeterministic choice among its enabled branches, with the result channel as ghost state from which recv may return ANY pending message. Loop invariants: one inner call per started attempt, never more than "
+               "max_hedged_attempts, every started attempt reports exactly once, waiting continues only while no attempt has succeeded; hence 1 <= inner calls <= max, the result is a received successful response and the "
+               "function returns at the first one, and all-attempts-failed is returned only when every attempt has been started and every one has reported a failure (repaired by a fix: commit); parallel mode starts all "
+               "attempts before any await; every attempt carries the request.",
+    level_note="R17 is an over-approximation, sound for safety clauses of the spawning function: detached tasks run to completion (tokio, assumed), message order and timer/branch choice are unconstrained. NOT decided: the "
+               "timing clause 'each further attempt no earlier than the configured delay after the previous one' beyond 'a hedge is spawned only in the timer branch of the select' (tokio's timer), and 'as soon as it is "
+               "available' (liveness). Readiness of the cloned instances is a C20 known finding. Loop termination not proved.",
+    technique="contract-based deductive verification (Verus) through an over-approximating rewrite of spawn/select (R17) with ghost channel state",
+    design_ref="§7, §11.2",
+    assumptions=["tokio: a spawned task runs to completion; mpsc delivers every sent message exactly once; recv returns None only when all senders are gone", "select! picks among enabled branches", "builder clamps max_hedged_attempts to >= 1"],
+    trusted=COMMON_TRUST, excluded=["delay between attempts (tokio timer)", "promptness of the first successful response (liveness)"],
+)
+PROPS["C20"]["units"] = PROPS["C20"]["units"] + ["hedge"]
+
 NOT_APPLICABLE = {
-    "C12": "not built: hedge's body is a tokio::select! loop over spawned tasks; needs the select!/spawn rewrite R17 (DESIGN §7); nothing weaker is claimed in its place",
 }
 ALL = ["C%02d" % i for i in range(1, 21)]
